@@ -81,3 +81,29 @@ package config
 //@   loop 1 invariant forall j int :: old(sentcount(c.evtCh)) <= j && j < sentcount(c.evtCh) ==> typeis(sentat(c.evtCh, j), "*SvcRemoveEvent")
 //@   loop 1 invariant forall k int :: 0 <= k && k <= rangeindex ==> !has(c.sws, removed[k].Name)
 //@   loop 1 invariant forall n string :: (forall k int :: 0 <= k && k < len(added) ==> added[k].Name != n) && (forall k int :: 0 <= k && k < len(removed) ==> removed[k].Name != n) ==> has(c.sws, n) == old(has(c.sws, n)) && (has(c.sws, n) ==> c.sws[n] == old(c.sws[n]))
+
+
+// ---- C16: the subscription client -----------------------------------------------------------------------
+
+//@ func newSvcDiscoveryClient
+//@   prop C16
+//@   modifies nothing
+//@   ensures @empty result != nil && fresh(result) && result.subscribed != nil && len(result.subscribed) == 0 && result.subCh != nil && result.unsubCh != nil && result.subCh != result.unsubCh
+
+//@ func (*svcDiscoveryClient).Subscribe
+//@   prop C16
+//@   flag no-blocking-under-lock
+//@   requires c != nil && c.subscribed != nil && c.subCh != nil
+//@   modifies mapof(c.subscribed), sent(c.subCh)
+//@   ensures @subscribed has(c.subscribed, svcName)
+//@   ensures @queued-exactly-when-new (old(has(c.subscribed, svcName)) ==> sentcount(c.subCh) == old(sentcount(c.subCh))) && (!old(has(c.subscribed, svcName)) ==> sentcount(c.subCh) == old(sentcount(c.subCh)) + 1 && sentat(c.subCh, old(sentcount(c.subCh))) == svcName)
+//@   ensures @other-subscriptions-untouched forall n string :: n != svcName ==> has(c.subscribed, n) == old(has(c.subscribed, n))
+
+//@ func (*svcDiscoveryClient).Unsubscribe
+//@   prop C16
+//@   flag no-blocking-under-lock
+//@   requires c != nil && c.subscribed != nil && c.unsubCh != nil
+//@   modifies mapof(c.subscribed), sent(c.unsubCh)
+//@   ensures @unsubscribed !has(c.subscribed, svcName)
+//@   ensures @queued-exactly-when-it-was-subscribed (!old(has(c.subscribed, svcName)) ==> sentcount(c.unsubCh) == old(sentcount(c.unsubCh))) && (old(has(c.subscribed, svcName)) ==> sentcount(c.unsubCh) == old(sentcount(c.unsubCh)) + 1 && sentat(c.unsubCh, old(sentcount(c.unsubCh))) == svcName)
+//@   ensures @other-subscriptions-untouched forall n string :: n != svcName ==> has(c.subscribed, n) == old(has(c.subscribed, n))
